@@ -154,6 +154,10 @@ def run(tier):
         r = core.model_check("FPS.tla", "mc/FPS_quick.cfg", timeout=3000)
         rep.add_mc("FPS reference 4 points on {0,1,3}^2", r)
     rep.cov["exhaustive"] = True
+    if tier == "thorough":
+        # optional extra: the incremental distance table (exact, dominated by the last selection distance, selection distances
+        # non-increasing) as an inductive invariant for every N <= 6 and ANY symmetric dissimilarity (spec/apalache/FPSInd.tla)
+        rep.cov["parts"]["Apalache inductive invariant of the distance table (extra)"] = core.apalache_inductive("FPSInd.tla")
     per = 30 if tier == "quick" else 500
     jobs = [(w, per, core.seed()) for w in range(core.NCPU)]
     with mp.Pool(core.NCPU) as pool:
